@@ -770,6 +770,88 @@ func runPartsConcurrent(c *verdict.Ctx) {
 	}
 }
 
+// runPartsHandMade: part sets whose pieces were NOT cut by NewPartSetFromData: a proposer may commit,
+// in the header, to any list of pieces (empty ones and uneven ones included) - every part is then the
+// genuine i-th piece under that root and AddPart accepts it.  A completed set must reassemble to
+// exactly the concatenation of the committed pieces, whatever their lengths, and report that size.
+func runPartsHandMade(c *verdict.Ctx) {
+	n := c.N(400, 30000)
+	for t := 0; t < n; t++ {
+		r := c.Rand("parts-handmade", t)
+		k := 1 + r.Intn(9)
+		pieces := make([][]byte, k)
+		var want []byte
+		empties := 0
+		for i := range pieces {
+			var ln int
+			switch r.Intn(5) {
+			case 0:
+				ln = 0
+			case 1:
+				ln = 1 + r.Intn(3)
+			default:
+				ln = 1 + r.Intn(200)
+			}
+			if ln == 0 {
+				empties++
+			}
+			pieces[i] = make([]byte, ln)
+			r.Read(pieces[i])
+			want = append(want, pieces[i]...)
+		}
+		root, proofs := merkle.ProofsFromByteSlices(pieces)
+		if !bytes.Equal(root, ref.MerkleRoot(pieces)) {
+			c.Violation("merkle-root-differs", "ProofsFromByteSlices root differs from the reference root", map[string]interface{}{"stream": "parts-handmade", "case": t})
+			continue
+		}
+		ps := types.NewPartSetFromHeader(types.PartSetHeader{Total: uint32(k), Hash: root})
+		okAll := true
+		for _, i := range r.Perm(k) {
+			part := &types.Part{Index: uint32(i), Bytes: cp(pieces[i]), Proof: *proofs[i]}
+			begin(map[string]interface{}{"stream": "parts-handmade", "case": t, "index": i})
+			added, err := ps.AddPart(part)
+			end()
+			if !added || err != nil {
+				okAll = false
+				c.Violation("partset-rejects-genuine", fmt.Sprintf("AddPart rejected the genuine piece %d (%d bytes) of a hand-made part set: %v", i, len(pieces[i]), err),
+					map[string]interface{}{"stream": "parts-handmade", "case": t, "index": i, "piece_len": len(pieces[i]), "pieces": k})
+				break
+			}
+		}
+		c.Eval()
+		c.Distinct("parts-handmade", t, k, empties)
+		if !okAll {
+			continue
+		}
+		lens := make([]int, k)
+		for i := range pieces {
+			lens[i] = len(pieces[i])
+		}
+		w := map[string]interface{}{"stream": "parts-handmade", "case": t, "piece_lengths": lens}
+		if !ps.IsComplete() {
+			c.Violation("partset-incomplete", "all genuine pieces delivered but the set is not complete", w)
+			continue
+		}
+		var got []byte
+		func() {
+			defer func() {
+				if rec := recover(); rec != nil {
+					got = nil
+				}
+			}()
+			got, _ = io.ReadAll(ps.GetReader())
+		}()
+		if !bytes.Equal(got, want) || ps.ByteSize() != int64(len(want)) {
+			c.Violation("partset-reassembly-differs", fmt.Sprintf("a completed part set of %d pieces reassembles to %d bytes (ByteSize %d), the committed pieces have %d", k, len(got), ps.ByteSize(), len(want)), w)
+			continue
+		}
+		c.Count("parts_handmade.sets_completed", 1)
+		if empties > 0 {
+			c.Count("parts_handmade.sets_with_empty_pieces", 1)
+		}
+	}
+}
+
 func partWitness(t, L int, s uint32, pm partMut, legit bool, err error) map[string]interface{} {
 	p := pm.part
 	return map[string]interface{}{"stream": "parts", "case": t, "data_len": L, "part_size": s, "mutation": pm.name,
@@ -896,5 +978,6 @@ func Run(c *verdict.Ctx) int {
 	runProofs(c)
 	runParts(c)
 	runPartsConcurrent(c)
+	runPartsHandMade(c)
 	return c.Finish(1000)
 }
